@@ -241,6 +241,15 @@ except Exception as e:
     print('OK', type(e).__name__); sys.exit(0)
 bad('malformed state accepted (keys shorter than arity)')
 """,
+    'R4-numpy-ravel-weak-scalar': """
+import numpy as np
+from optree.integration.numpy import tree_ravel
+flat, unravel = tree_ravel([np.array([1, 2], dtype=np.int8), 300])
+back = unravel(flat)
+if int(back[1]) != 300 or flat.dtype == np.int8:
+    bad('tree_ravel([int8 array, 300]) -> flat %s dtype %s, second leaf comes back as %s' % (flat, flat.dtype, back[1]))
+ok()
+""",
     'K9py-prefix-errors-deep': """
 t = 0
 for _ in range(999): t = [t]
